@@ -1,5 +1,5 @@
 """C07 — dual hashes: canonical storage discipline of the RLE side table (structural clauses)."""
-from ..rules import tail, fields, eqord, parser, panic, rle, normal, casts, vis, features
+from ..rules import tail, fields, eqord, parser, panic, rle, normal, casts, vis, features, summary
 
 EXPL = ("Decides: SA-TAIL: on every construction route the RLE block is terminator-filled from the encoder's final offset to the end and "
         "the normalised block hash is zero-filled from its stored length; every write into an RLE block anywhere in the crate is "
@@ -30,6 +30,7 @@ def run(ctx):
         ctx.guard("C07", "runs", lambda: normal.run_limit_agreement(ctx, prog))
         ctx.guard("C07", "rle-validator", lambda: rle.validator_refusals(ctx, prog))
         ctx.guard("C07", "expand-step", lambda: rle.expand_step(ctx, prog))
+        ctx.guard("C07", "summaries", lambda: summary.check(ctx, prog, 'hash_dual::', floor=10))
         ctx.guard("C07", "traits", lambda: vis.trait_census(ctx, prog, scope='hash_dual::'))
         if c == "unchecked":
             ctx.guard("C07", "twins", lambda: features.twins(ctx, prog, scope='FuzzyHashDualData', floor=2))
